@@ -1,10 +1,15 @@
 open Drv_common
+module M = struct
+  include Drv_common.M
+  include XrateConsts
+  include Xrate
+end
 (* ------------------------------------------------------------------ xrate (C20) *)
 let zz (r : M.z M.res) : string = res_s zs r
 let pair_s (r : (M.z * M.z) M.res) : string = res_s (fun (a, b) -> zs a ^ " " ^ zs b) r
 let then_z (first : M.z M.res) (g : M.z -> M.z M.res) : string =
   match first with M.Ok v -> zz (g v) | M.Err _ -> "-"
-let zlist (l : M.z list) : string = String.concat " " (List.map zs l)
+let zlist (l : M.z list) : string = String.concat " " (Stdlib.List.map zs l)
 
 let parse_k (t : toks) : M.kreserve =
   let slot = nz t in let avail = nz t in let b = nz t in let p = nz t in let r = nz t in let pe = nz t in
@@ -38,16 +43,16 @@ let suite_xrate (line : string) : string =
   let out =
     match op with
     | "consts" ->
-      [ String.concat " " [zs M.sPOT_CUMULATIVE_INTEREST_PRECISION; zs M.dRIFT_PRECISION_EXP; zs M.dRIFT_SCALED_BALANCE_DECIMALS];
-        zlist M.dRIFT_EXP_10; zlist M.dRIFT_EXP_10_I80F48;
-        String.concat " " [zs M.e_Drift_ScalingOverflow; zs M.e_Drift_MathError; zs M.e_Kamino_MathError;
-                           zs M.e_Solend_MathError; zs M.e_Solend_ReserveStale; zs M.e_Anchor_InvalidNumericConversion];
-        zlist M.eXP_10_I80F48 ]
+      [ String.concat " " [zs M.coq_SPOT_CUMULATIVE_INTEREST_PRECISION; zs M.coq_DRIFT_PRECISION_EXP; zs M.coq_DRIFT_SCALED_BALANCE_DECIMALS];
+        zlist M.coq_DRIFT_EXP_10; zlist M.coq_DRIFT_EXP_10_I80F48;
+        String.concat " " [zs M.coq_E_Drift_ScalingOverflow; zs M.coq_E_Drift_MathError; zs M.coq_E_Kamino_MathError;
+                           zs M.coq_E_Solend_MathError; zs M.coq_E_Solend_ReserveStale; zs M.coq_E_Anchor_InvalidNumericConversion];
+        zlist M.coq_EXP_10_I80F48 ]
     | "i80" -> let x = nz t in [zz (M.i80_from_i128_checked x)]
     | "adj" ->
       let kind = next t in
       let n = ni t in
-      List.init n (fun _ ->
+      Stdlib.List.init n (fun _ ->
         let raw = nz t in let r = nz t in
         match kind with
         | "i128" -> zz (M.adjust_i128 raw r)
@@ -56,7 +61,7 @@ let suite_xrate (line : string) : string =
         | _ -> failwith "bad kind")
     | "c2l" | "l2c" ->
       let n = ni t in
-      List.init n (fun _ ->
+      Stdlib.List.init n (fun _ ->
         let a = nz t in let tl = nz t in let tc = nz t in
         if op = "c2l" then zz (M.collateral_to_liquidity_from_scaled a tl tc)
         else zz (M.liquidity_to_collateral_from_scaled a tl tc))
@@ -96,7 +101,7 @@ let suite_xrate (line : string) : string =
     | "dadj" ->
       let kind = next t in
       let n = ni t in
-      List.init n (fun _ ->
+      Stdlib.List.init n (fun _ ->
         let ci = nz t in let raw = nz t in
         let m = { M.dm_cum_interest = ci; dm_last_ts = M.Z0; dm_decimals = M.Z0 } in
         match kind with
